@@ -21,11 +21,11 @@
 (* every request-level schedule of them; otherwise use -simulate.          *)
 (***************************************************************************)
 EXTENDS Referrers, Json
-CONSTANTS Modes, Caches, Pages, TagDels, SubjSel, Script, SerialPrefix, ObsPolicy
+CONSTANTS Modes, Caches, Pages, TagDels, SubjSel, Spells, Script, SerialPrefix, ObsPolicy
 VARIABLES hist, turn, obsI, needq, fetched, lockq
 gvars == <<dvars, hist, turn, obsI, needq, fetched, lockq>>
 
-GenConfs == ConfSpace(Modes, Caches, Pages, TagDels, SubjSel)
+GenConfs == ConfSpace(Modes, Caches, Pages, TagDels, SubjSel, Spells)
 P1 == <<"p1">>
 P2 == <<"p1", "p2">>
 P3 == <<"p1", "p2", "p3">>
